@@ -8,7 +8,7 @@ import (
 )
 
 func init() {
-	register("C12", []string{".", "./record", "./objstorage/objstorageprovider"}, runC12)
+	register("C12", []string{".", "./record", "./objstorage/objstorageprovider", "./internal/manifest", "./vfs/atomicfs"}, runC12)
 	propExplain["C12"] = "Decides ordering clauses of C12: in DB.flush1 the flushed memtables are removed from the queue, the read state is refreshed and the flushed channels are closed only through the nil-error edge of the MANIFEST update, which itself follows the (synced) write of the tables; Flush waits for the flushed channel captured before the memtable rotation; LogWriter.Close waits for the flush loop and syncs before closing; the object provider publishes as 'synced' only a change counter it captured BEFORE the directory sync started (a creation racing with the sync must be synced again). Shares C10.O3 (tables synced before named) and C22 (MANIFEST protocol). Does not cover NoSyncOnClose configurations."
 }
 
